@@ -78,12 +78,16 @@ func checkRemuxSdp(r *vk.Run, video string, audio bool, order []string, reuse bo
 			msgs = append(msgs, remuxMsg{9, ts, frame(false, tag)})
 		case "a":
 			msgs = append(msgs, remuxMsg{8, ts, []byte{0xaf, 1, 0x21, tag, 0x55}})
-		case "M":
+		case "M", "Ma":
 			num := func(k string, v float64) ref.APair {
 				return ref.APair{Key: k, Val: ref.AVal{Kind: ref.ANumber, Num: v}}
 			}
 			b := ref.AEncode(ref.AVal{Kind: ref.AString, Str: "onMetaData"})
-			msgs = append(msgs, remuxMsg{18, ts, append(b, ref.AEncode(ref.AVal{Kind: ref.AObject, Pairs: []ref.APair{num("width", 1280), num("height", 720)}})...)})
+			pairs := []ref.APair{num("width", 1280), num("height", 720)}
+			if o == "Ma" { // the encoder's idea of the audio: AAC, at a rate that is not the AudioSpecificConfig's
+				pairs = append(pairs, num("audiocodecid", 10), num("audiosamplerate", 22050))
+			}
+			msgs = append(msgs, remuxMsg{18, ts, append(b, ref.AEncode(ref.AVal{Kind: ref.AObject, Pairs: pairs})...)})
 		}
 		ts += 20
 		tag++
@@ -178,7 +182,7 @@ func checkRemuxSdp(r *vk.Run, video string, audio bool, order []string, reuse bo
 func remuxSdpCases(r *vk.Run, quick bool) int {
 	n := 0
 	// every arrangement of the sequence headers and up to 3 other messages before the SDP can be known
-	fillers := []string{"a", "k", "p", "M"}
+	fillers := []string{"a", "k", "p", "M", "Ma"}
 	var orders [][]string
 	var gen func(cur []string, hv, ha bool, nf int)
 	gen = func(cur []string, hv, ha bool, nf int) {
